@@ -10,6 +10,7 @@ import (
 	"runtime"
 	"strconv"
 	"sync"
+	"sync/atomic"
 	"time"
 )
 
@@ -41,6 +42,10 @@ type Chunk struct {
 	Err  error
 	Gen  func() []byte // if non-nil, produces Data lazily (handshake replies)
 	Wait <-chan struct{}
+	// Gate: while *Gate == 0 the chunk is not available and Read keeps
+	// returning the previous error (a failed transport stays failed until
+	// the driver "heals" it by setting *Gate = 1).
+	Gate *int32
 }
 
 // TimeoutErr is a net.Error with Timeout() == true.
@@ -93,6 +98,7 @@ type ScriptConn struct {
 	// QuietReads: do not log successful Read ops (only count their bytes).
 	QuietReads bool
 	nread      int
+	lastErr    error
 	// SDErr: if set, returned by SetDeadline-family calls with the given
 	// all-op index (used by handshake fault enumeration).
 	Name string
@@ -158,6 +164,12 @@ func (c *ScriptConn) Read(p []byte) (int, error) {
 			return 0, e
 		}
 		ch := c.In[c.inPos]
+		if ch.Gate != nil && atomic.LoadInt32(ch.Gate) == 0 && c.lastErr != nil {
+			e := c.lastErr
+			c.log(&Op{Kind: OpRead, Err: e, WIdx: -1})
+			c.mu.Unlock()
+			return 0, e
+		}
 		c.inPos++
 		if ch.Wait != nil {
 			c.mu.Unlock()
@@ -186,6 +198,9 @@ func (c *ScriptConn) Read(p []byte) (int, error) {
 	if len(c.rest) == 0 {
 		err = c.restE
 		c.restE = nil
+	}
+	if err != nil {
+		c.lastErr = err
 	}
 	c.nread += n
 	if !c.QuietReads || err != nil {
